@@ -280,7 +280,7 @@ func main() {
 	// ---- 2. structure-aware mutation of valid documents
 	nDocs := 6000
 	if thorough {
-		nDocs = 60000
+		nDocs = 24000
 	}
 	methodFor := map[string]string{"propfind": "PROPFIND", "propertyupdate": "PROPPATCH", "mkcol-cal": "MKCOL", "mkcol-card": "MKCOL",
 		"cal-query": "REPORT", "cal-multiget": "REPORT", "card-query": "REPORT", "card-multiget": "REPORT"}
@@ -318,8 +318,8 @@ func main() {
 			}
 			emit(kind, m.bytes(rng.Bool()))
 		}
-		// truncation at every offset for small documents (every 7th document in the quick tier)
-		if b := d.bytes(false); len(b) <= 400 && (thorough || i%7 == 0) {
+		// truncation at every offset for small documents (every 7th document)
+		if b := d.bytes(false); len(b) <= 400 && i%7 == 0 {
 			for cut := 0; cut < len(b); cut++ {
 				emit(kind, b[:cut])
 			}
